@@ -15,15 +15,18 @@ use cw_multi_test::{Executor, SudoMsg, WasmSudo};
 use std::collections::{BTreeMap, BTreeSet};
 
 fn run(o: &Opts) {
-    run_from(o, false)
+    run_with(o, false, false)
+}
+fn run_from(o: &Opts, vary_root: bool) {
+    run_with(o, vary_root, false)
 }
 
 /// `vary_root`: the root script runs as the migrate entry point (raw WasmMsg::Migrate to the same code)
 /// or as sudo instead of execute: same composition rules, own first event; migrate results are wrapped
 /// like execute results (seed C04d), no wrapping is specified for sudo
-fn run_from(o: &Opts, vary_root: bool) {
+fn run_with(o: &Opts, vary_root: bool, adapted: bool) {
     let root_entry = if vary_root { 1 + choose(2) } else { 0 };
-    let mut w = world(o.max_depth + 1);
+    let mut w = world_of(o.max_depth + 1, adapted);
     let root = gen_tree(o);
     let mut uids = BTreeMap::new();
     let mut next = 0;
@@ -207,6 +210,9 @@ pub fn scenarios(tier: &str) -> Vec<Scenario> {
     }));
     v.push(Scenario::new("trees_depth1_nodes3_root_is_migrate_or_sudo", &["ok", "err", "ok_with_data"], || {
         run_from(&Opts { max_depth: 1, max_nodes: 3, max_children: 2, vary_output: true, vary_ids: false, reply_subs: false, inst_leaves: false }, true)
+    }));
+    v.push(Scenario::new("trees_depth1_nodes2_contracts_registered_through_empty_adapters", &["ok", "err", "ok_with_data", "custom_event"], || {
+        run_with(&Opts { max_depth: 1, max_nodes: 2, max_children: 1, vary_output: true, vary_ids: false, reply_subs: false, inst_leaves: false }, false, true)
     }));
     v.push(Scenario::new("instantiate_sudo_migrate_entry_points", &["instantiate", "sudo", "migrate"], entry_points));
     v.push(Scenario::new("trees_nodes3_replies_emitting_submessages_instantiate_leaves", &["ok", "err", "ok_with_data"], || {
